@@ -114,7 +114,11 @@ class C08(FMonitor):
                 if draws is not None and len(draws) != len(pulls):
                     led.V("C08", "delay-drawn-once-per-item", "%s pulled %d item(s) and consulted its processing delay %d time(s)"
                           % (nid, len(pulls), len(draws)), node=tn, more=len(draws) > len(pulls))
-            elif tn in ("Splitter", "Combiner"):
+            if tn == "Splitter":
+                pal = [it for it in led.items if led.loc[id(it)] == ("node", nid) and getattr(it, "flow_item_type", "") == "Pallet"]
+                if len(pal) > 1:
+                    led.V("C08", "at-most-work_capacity", "splitter %s holds %d pallets at once: %s" % (nid, len(pal), [x.id for x in pal]), node=tn)
+            if tn in ("Splitter", "Combiner"):
                 draws = led.draws.get("pd:" + nid)
                 if draws is not None:
                     units = sum(1 for (t, it, idx) in led.pulls.get(nid, []) if getattr(it, "flow_item_type", "") == "Pallet")
@@ -127,6 +131,9 @@ class C08(FMonitor):
             if (iid, nid) in self.checked:
                 continue
             n = led.nodes.get(nid)
+            if n is not None and tname(n) == "Splitter":
+                self.splitter_offer(led, n, nid, iid, t_offer)
+                continue
             if n is None or tname(n) != "Machine":
                 continue
             self.checked.add((iid, nid))
@@ -141,6 +148,26 @@ class C08(FMonitor):
             if abs((t_offer - t_pull) - d) > EPS * max(1.0, t_offer):
                 led.V("C08", "offered-exactly-one-delay-after-pull", "%s pulled %s at %s with delay %s but offered it downstream at %s"
                       % (nid, pulls[k][1].id, t_pull, d, t_offer), node="Machine", late=(t_offer - t_pull) > d)
+
+    def splitter_offer(self, led, n, nid, iid, t_offer):
+        """the first thing a splitter offers for a pallet (its first item, or the empty pallet) comes exactly one delay after the pull"""
+        pulls = [(t, it) for (t, it, idx) in led.pulls.get(nid, []) if getattr(it, "flow_item_type", "") == "Pallet"]
+        if not pulls:
+            return
+        k = len(pulls) - 1
+        t_pull, pal = pulls[k]
+        if ("pal", k, nid) in self.checked:
+            self.checked.add((iid, nid))
+            return
+        self.checked.add(("pal", k, nid))
+        self.checked.add((iid, nid))
+        draws = led.draws.get("pd:" + nid)
+        d = draws[k][1] if draws is not None and k < len(draws) else (n.processing_delay if isinstance(n.processing_delay, (int, float)) else None)
+        if d is None:
+            return
+        if abs((t_offer - t_pull) - d) > EPS * max(1.0, t_offer):
+            led.V("C08", "offered-exactly-one-delay-after-pull", "splitter %s pulled %s at %s with delay %s but first offered its content downstream at %s"
+                  % (nid, pal.id, t_pull, d, t_offer), node="Splitter", late=(t_offer - t_pull) > d)
 
     def delay_of(self, led, n, nid, k):
         draws = led.draws.get("pd:" + nid)
@@ -209,6 +236,12 @@ class C09(FMonitor):
                         led.V("C09", "non-blocking-never-waits", "non-blocking machine %s still holds %s (pulled %s, delay %s) at the end of instant %s"
                               % (nid, it.id, t_pull, d, now), node=tn)
                         return
+        for t in led.live_tokens(side="p", status="pending"):
+            n = t.node
+            if n is not None and getattr(n, "blocking", None) is False:
+                led.V("C09", "non-blocking-never-waits", "non-blocking %s %s is waiting for space on %s at the end of instant %s instead of dropping the item"
+                      % (tname(n), n.id, t.edge.id, now), node=tname(n), waiting_on_full_edge=True)
+                return
         # decision correctness: a discard happens only when no permitted edge answered can_put() == True in that instant
         for (t, nid, it) in led.discards:
             if abs(t - now) > EPS:
@@ -620,6 +653,19 @@ class C17(FMonitor):
             return ("BLOCKED_STATE",) if held else ("GENERATING_STATE",)
         if tn == "Sink":
             return ("COLLECTING_STATE",)
+        if tn == "Splitter":
+            if now < n.node_setup_time - EPS:
+                return ("SETUP_STATE",)
+            pulls = [(t, it) for (t, it, idx) in led.pulls.get(nid, []) if getattr(it, "flow_item_type", "") == "Pallet"]
+            holding = any(l == ("node", nid) for l in led.loc.values())
+            if not holding or not pulls:
+                return ("IDLE_STATE",)
+            k = len(pulls) - 1
+            draws = led.draws.get("pd:" + nid)
+            d = draws[k][1] if draws is not None and k < len(draws) else (n.processing_delay if isinstance(n.processing_delay, (int, float)) else None)
+            if d is None:
+                return None
+            return ("PROCESSING_STATE",) if now < pulls[k][0] + d else ("BLOCKED_STATE",)
         return None
 
     def snapshot(self, led):
